@@ -50,7 +50,7 @@ keys values items timetuple toordinal isoformat issubset issuperset union inters
 decode encode splitlines read readline
 uniform random standard_normal integers normal choice'''.split())
 M_ALIAS = set('''reshape view squeeze ravel transpose swapaxes diagonal get pop setdefault'''.split())       # may return (part of) the receiver
-M_INPLACE = set('''sort fill resize put itemset partition setfield byteswap'''.split())                       # change the receiver's bytes
+M_INPLACE = set('''sort fill resize put itemset partition setfield byteswap setflags'''.split())                       # change the receiver's bytes
 M_STORE = set('''append extend insert update add remove clear reverse'''.split())                             # change a container receiver
 ATTR_ALIAS = set('''T real imag flat base A array'''.split())     # attribute that is a view of the receiver (A/array: this package's ndarray subclasses)
 ATTR_SCALAR = set('''shape ndim size dtype itemsize nbytes year month day tm_yday'''.split())
@@ -122,3 +122,8 @@ OWN_STATE_INPLACE = {
 
 # callables allowed to return an object that is shared between calls (none in the current tree)
 SHARED_RETURN_OK = set()
+
+# scalar attributes that are declared carried state of a state-advancing method (may differ after two identical calls)
+CARRIED_SCALARS = set()
+# attributes whose assignment changes the array object itself (the caller sees another shape / dtype / layout / flags)
+ARRAY_HEADER_ATTRS = {'shape', 'dtype', 'strides', 'writeable', 'flags'}
